@@ -26,8 +26,10 @@ Record disk_ok (e : env) (c : config) (d : disk) : Prop := {
   ok_hostmap : forall h, loaded_hostmap e d h = h_items (c_h c) h;
   ok_rootredir : forall h, loaded_rootredir e d h = h_items (c_h c) h;
   ok_rootssl : forall h, loaded_rootssl e d h = rssl c h;
-  (* the maps of every current backend that needs them hold its current paths *)
-  ok_backmap : forall x bc, b_items (c_b c) x = Some bc -> needs_map bc = true -> d_backmap d x = Some (bpaths bc);
+  (* the maps of every current backend that needs them hold the keys of its current paths:
+     hostname and current aliases of the hosts they belong to *)
+  ok_backmap : forall x bc, b_items (c_b c) x = Some bc -> needs_map bc = true ->
+    d_backmap d x = Some (bmap_keys (h_items (c_h c)) x bc);
   (* the tcp maps / crt-lists the main file refers to render the current tcp services *)
   ok_tcpmap : forall t, loaded_tcpmap e d t = t_items (c_t c) t;
   ok_tcpcrt : forall t, loaded_tcpcrt e d t =
@@ -61,8 +63,14 @@ Inductive batch_shape : list op -> Prop :=
 (* when the update starts: the backend of a host's root path exists *)
 Definition ready (c : config) : Prop :=
   forall h hc b, h_items (c_h c) h = Some hc -> hroot hc = Some b -> b_items (c_b c) b <> None.
+(* the tracker: a backend that needs maps and was not acquired again by the batch has only paths
+   of hosts that the batch left as they were (hosts and the backends they route to are dirty
+   together: the converter removes and builds again both sides of every link it follows) *)
+Definition tracked (c0 c : config) : Prop :=
+  forall x bc, b_items (c_b c) x = Some bc -> needs_map bc = true -> b_add (c_b c) x = None ->
+  forall hp, In hp (bpaths bc) -> h_items (c_h c) (fst hp) = h_items (c_h c0) (fst hp).
 Definition wf_batch (e : env) (c : config) (l : list op) : Prop :=
-  batch_shape l /\ Forall (op_in e) l /\ ready (apply_ops e c l).
+  batch_shape l /\ Forall (op_in e) l /\ ready (apply_ops e c l) /\ tracked c (apply_ops e c l).
 
 (* ================================================================ basics *)
 
@@ -90,10 +98,11 @@ Proof.
 Qed.
 Lemma hcont_eqb_eq : forall a b, hcont_eqb a b = true -> a = b.
 Proof.
-  intros [v1 a1 p1] [v2 a2 p2]. unfold hcont_eqb. cbn. intros H.
+  intros [v1 a1 p1 l1] [v2 a2 p2 l2]. unfold hcont_eqb. cbn. intros H.
   repeat (apply andb_true_iff in H; destruct H as [H ?]).
-  apply N.eqb_eq in H. apply eqb_prop in H1.
-  apply (list_eqb_eq _ _ pair_eqb_eq) in H0. congruence.
+  apply N.eqb_eq in H. apply eqb_prop in H2.
+  apply (list_eqb_eq _ _ pair_eqb_eq) in H1.
+  apply (list_eqb_eq _ N.eqb (fun x y => proj1 (N.eqb_eq x y))) in H0. congruence.
 Qed.
 
 Lemma existsb_false : forall A (f : A -> bool) l, existsb f l = false -> forall x, In x l -> f x = false.
@@ -255,7 +264,8 @@ Record disk_inv (e : env) (c : config) (d : disk) : Prop := {
     (any_rssl e (rssl c) = true -> exists f, d_rootssl d = Some f /\ forall h, f h = rssl c h);
   di_fmaps : forall f, c_fmaps c = Some f ->
     (forall h, fs_hosts f h = h_items (c_h c) h) /\ (forall h, fs_rssl f h = rssl c h);
-  di_back : forall x bc, b_items (c_b c) x = Some bc -> needs_map bc = true -> d_backmap d x = Some (bpaths bc);
+  di_back : forall x bc, b_items (c_b c) x = Some bc -> needs_map bc = true ->
+    d_backmap d x = Some (bmap_keys (h_items (c_h c)) x bc);
   di_tcpmap : forall p, port_used e (t_items (c_t c)) p = true ->
     exists f, d_tcpmap d p = Some f /\ forall t, f t = restrict_port (t_items (c_t c)) p t;
   di_tcpcrt : forall p, port_tls e (t_items (c_t c)) p = true ->
@@ -639,7 +649,7 @@ Qed.
 Definition backmaps_w (e : env) (c : config) (d : disk) : disk :=
   if backs_changed e (c_b c) then
     with_backmap d (fun x => match b_add (c_b c) x with
-                             | Some bc => if needs_map bc then Some (bpaths bc) else d_backmap d x
+                             | Some bc => if needs_map bc then Some (bmap_keys (h_items (c_h c)) x bc) else d_backmap d x
                              | None => d_backmap d x end)
   else d.
 Lemma ph_backmaps_ok : forall e fs c d d', ph_backmaps e fs c d = (d', false) -> d' = backmaps_w e c d.
@@ -754,7 +764,7 @@ Lemma backmaps_w_own : forall e c d x,
   d_backmap (backmaps_w e c d) x =
   if backs_changed e (c_b c) then
     match b_add (c_b c) x with
-    | Some bc => if needs_map bc then Some (bpaths bc) else d_backmap d x
+    | Some bc => if needs_map bc then Some (bmap_keys (h_items (c_h c)) x bc) else d_backmap d x
     | None => d_backmap d x end
   else d_backmap d x.
 Proof. intros. unfold backmaps_w. destruct (backs_changed e (c_b c)); cbn; auto. Qed.
@@ -831,7 +841,7 @@ Hypothesis A_front : front_guard e c1 = false ->
   (exists f, c_fmaps c1 = Some f /\ fmaps_hold c1 f) /\ front_holds d0 c1.
 Hypothesis A_add : forall x a, b_add (c_b c1) x = Some a -> b_items (c_b c1) x = Some a.
 Hypothesis A_back : forall x bc, b_items (c_b c1) x = Some bc -> needs_map bc = true ->
-  (backs_changed e (c_b c1) = false \/ b_add (c_b c1) x = None) -> d_backmap d0 x = Some (bpaths bc).
+  (backs_changed e (c_b c1) = false \/ b_add (c_b c1) x = None) -> d_backmap d0 x = Some (bmap_keys (h_items (c_h c1)) x bc).
 Hypothesis A_shard : cl = true -> forall j, j < nsh e -> b_chg (c_b c1) j = false -> shard_holds e d0 c1 j.
 Hypothesis A_fresh : cl = false -> forall j, j < nsh e -> b_chg (c_b c1) j = false ->
   forall x, sh e x = j -> b_items (c_b c1) x = None.
@@ -877,10 +887,11 @@ Proof.
     rewrite M3, M4, M5, M6. apply (A_front eq_refl).
 Qed.
 
-Lemma core_back : forall x bc, b_items (c_b c1) x = Some bc -> needs_map bc = true -> d_backmap d4 x = Some (bpaths bc).
+Lemma core_back : forall x bc, b_items (c_b c1) x = Some bc -> needs_map bc = true ->
+  d_backmap d4 x = Some (bmap_keys (h_items (c_h c1)) x bc).
 Proof.
   intros x bc Hx Hn. destruct d4_fields as [_ [_ [_ [_ [_ [_ [Hb _]]]]]]]. rewrite Hb. unfold d3.
-  rewrite backmaps_w_own. destruct c2_fields as [Cb _]. rewrite Cb.
+  rewrite backmaps_w_own. destruct c2_fields as [Cb [Ch _]]. rewrite Cb, Ch.
   assert (Old : d_backmap d2 x = d_backmap d0 x).
   { destruct (front_w_others e c1 d1) as [_ [_ [F3 _]]]. destruct (tcpmaps_w_others e c1 d0) as [_ [_ [_ [_ [_ [_ [M7 _]]]]]]].
     unfold d2. rewrite F3. unfold d1. rewrite M7. reflexivity. }
@@ -1079,13 +1090,21 @@ Proof.
       exfalso. apply (Ri h hc b Eh Er). apply (mb4 _ _ _ Mb); auto. congruence.
 Qed.
 
+(* the keys of a backend's maps only depend on the hosts of its paths *)
+Lemma bmap_keys_ext : forall hs hs' x bc,
+  (forall hp, In hp (bpaths bc) -> hs (fst hp) = hs' (fst hp)) -> bmap_keys hs x bc = bmap_keys hs' x bc.
+Proof.
+  intros hs hs' x bc H. unfold bmap_keys. induction (bpaths bc) as [|hp l IH]; cbn [flat_map]; auto.
+  rewrite (H hp (or_introl eq_refl)). rewrite IH; auto. intros q Hq. apply H. right. exact Hq.
+Qed.
+
 Record upd_pre (e : env) (cl : bool) (c1 : config) (d0 : disk) : Prop := {
   p_tcp : t_chg (c_t c1) = false -> forall p, port_used e (t_items (c_t c1)) p = true ->
     exists f, d_tcpmap d0 p = Some f /\ forall t, f t = restrict_port (t_items (c_t c1)) p t;
   p_front : front_guard e c1 = false -> (exists f, c_fmaps c1 = Some f /\ fmaps_hold c1 f) /\ front_holds e d0 c1;
   p_add : forall x a, b_add (c_b c1) x = Some a -> b_items (c_b c1) x = Some a;
   p_back : forall x bc, b_items (c_b c1) x = Some bc -> needs_map bc = true ->
-    (backs_changed e (c_b c1) = false \/ b_add (c_b c1) x = None) -> d_backmap d0 x = Some (bpaths bc);
+    (backs_changed e (c_b c1) = false \/ b_add (c_b c1) x = None) -> d_backmap d0 x = Some (bmap_keys (h_items (c_h c1)) x bc);
   p_shard : cl = true -> forall j, j < nsh e -> b_chg (c_b c1) j = false -> shard_holds e d0 c1 j;
   p_fresh : cl = false -> forall j, j < nsh e -> b_chg (c_b c1) j = false ->
     forall x, sh e x = j -> b_items (c_b c1) x = None;
@@ -1096,12 +1115,12 @@ Record upd_pre (e : env) (cl : bool) (c1 : config) (d0 : disk) : Prop := {
 
 (* the committed state was good: whatever the update skips is still right *)
 Lemma upd_pre_good : forall e cl c0 c1 md d0,
-  dom e c1 -> mid e c0 c1 md -> ready c1 -> glob_ok c0 -> defp c0 ->
+  dom e c1 -> mid e c0 c1 md -> ready c1 -> tracked c0 c1 -> glob_ok c0 -> defp c0 ->
   disk_inv e c0 d0 ->
   (cl = true -> shards_inv e c0 d0 /\ no_high_shards e d0) -> (cl = false -> virgin c0) ->
   upd_pre e cl c1 d0.
 Proof.
-  intros e cl c0 c1 md d0 D M R G Dp I Hcl Hvg.
+  intros e cl c0 c1 md d0 D M R Tr G Dp I Hcl Hvg.
   assert (D' := D). destruct D' as [Db [Dh Dt]]. assert (M' := M). destruct M' as [Mb Mr].
   constructor.
   - (* tcp maps *)
@@ -1135,6 +1154,7 @@ Proof.
       apply (existsb_false _ _ _ Hc) in Ix. apply orb_false_iff in Ix. destruct Ix as [Ix _]. apply isSome_false in Ix. auto. }
     assert (Dl : b_del (c_b c1) x = None).
     { destruct (b_del (c_b c1) x) eqn:Dl; auto. rewrite (mb4 _ _ _ Mb x A) in Hx; congruence. }
+    rewrite (bmap_keys_ext _ (h_items (c_h c0)) x bc (Tr x bc Hx Hn A)).
     apply (di_back _ _ _ I); auto. rewrite <- (mb3 _ _ _ Mb x A Dl). auto.
   - (* shards *)
     intros Ecl j Hj C x. destruct (Hcl Ecl) as [Hs _]. rewrite (Hs j Hj x). destruct (N.eqb_spec (sh e x) j); auto.
@@ -1192,6 +1212,21 @@ Proof.
   rewrite (shrink_items_some e _ _ b Mb). apply isSome_true. exact R2.
 Qed.
 
+(* Shrink only takes out of the changed sets backends that have no maps *)
+Lemma tracked_shrink : forall e c0 c md, mid e c0 c md -> tracked c0 c -> tracked c0 (config_shrink e c).
+Proof.
+  intros e c0 c md M T x bc Hx Hn A hp Hp.
+  rewrite (mid_hitems_shrink e c0 c md M). cbn [config_shrink with_h with_b c_b backs_shrink b_items b_add] in Hx, A.
+  destruct (bmatch (c_b c) x) eqn:E.
+  - apply bmatch_some in E. destruct E as [a [d [Ha [Hd [Had Hacl]]]]]. rewrite Hd in Hx. inversion Hx; subst.
+    unfold needs_map in Hn. rewrite Hacl in Hn. discriminate.
+  - apply (T x bc Hx Hn A hp Hp).
+Qed.
+Lemma tracked_change_all : forall e c0 c, tracked c0 (config_change_all e c).
+Proof.
+  intros e c0 c x bc Hx Hn A. cbn in Hx, A. rewrite Hx in A. discriminate.
+Qed.
+
 (* the files also are those of a configuration that has the same items *)
 Lemma disk_inv_transfer : forall e c c' d,
   (forall x, b_items (c_b c') x = b_items (c_b c) x) -> (forall h, h_items (c_h c') h = h_items (c_h c) h) ->
@@ -1215,7 +1250,8 @@ Proof.
       * exists g'. split; auto. intros h. rewrite G4, Eh. reflexivity.
     + intros A. destruct (F4 A) as [g [G1 G2]]. exists g. split; auto. intros h. rewrite G2, Er. reflexivity.
   - exact Fm.
-  - intros x bc Hx Hn. apply (di_back _ _ _ I); auto. rewrite <- Eb. auto.
+  - intros x bc Hx Hn. rewrite (bmap_keys_ext _ (h_items (c_h c)) x bc (fun hp _ => Eh (fst hp))).
+    apply (di_back _ _ _ I); auto. rewrite <- Eb. auto.
   - intros p Hp. rewrite (port_used_ext e _ _ p Et) in Hp. destruct (di_tcpmap _ _ _ I p Hp) as [f [Hf Hg]].
     exists f. split; auto. intros t. rewrite Hg. unfold restrict_port. rewrite Et. reflexivity.
   - intros p Hp. rewrite (port_tls_ext e _ _ p Et) in Hp. destruct (di_tcpcrt _ _ _ I p Hp) as [f [Hf Hg]].
@@ -1244,13 +1280,14 @@ Lemma update_good : forall e fs s0 l s',
   shard_range e -> reach e s0 -> wf_batch e (i_cfg s0) l -> armed fs FReloadSilent = false ->
   update_f e fs (sync e s0 l) = (s', false) -> good e s'.
 Proof.
-  intros e fs s0 l s' SR [D0 [Cl0 [Dp0 [G0 [NH0 St]]]]] [Shape [Oin Rdy]] NS U.
+  intros e fs s0 l s' SR [D0 [Cl0 [Dp0 [G0 [NH0 St]]]]] [Shape [Oin [Rdy Trk]]] NS U.
   set (cs := apply_ops e (i_cfg s0) l) in *.
   assert (Dcs : dom e cs) by (apply dom_apply_ops; auto).
   destruct (mid_batch e (i_cfg s0) l SR D0 Cl0 Shape) as [md Mcs]. fold cs in Mcs.
   assert (Dsh : dom e (config_shrink e cs)) by (apply dom_shrink; auto).
   assert (Msh : mid e (i_cfg s0) (config_shrink e cs) md) by (apply mid_shrink; auto).
   assert (Rsh : ready (config_shrink e cs)) by (apply (ready_shrink e (i_cfg s0) cs md); auto).
+  assert (Tsh : tracked (i_cfg s0) (config_shrink e cs)) by (apply (tracked_shrink e (i_cfg s0) cs md); auto).
   apply update_f_ok in U. cbn [sync i_cfg i_disk i_failed i_clean i_running i_pending] in U. fold cs in U.
   (* c1: the configuration the phases see *)
   set (c1 := if i_failed s0 then config_change_all e (config_shrink e cs) else config_shrink e cs) in *.
@@ -1407,7 +1444,7 @@ Proof.
   - (* failed *)
     destruct (update_f_shape e fs (sync e s0 l)) as [c [d [cl [r [p [U [Hb [Hh [Ht [Hg Hn]]]]]]]]]].
     rewrite U. rewrite Err. cbn [fst].
-    destruct R as [D0 [Cl0 [Dp0 [G0 [NH0 St]]]]]. destruct W as [Shape [Oin Rdy]].
+    destruct R as [D0 [Cl0 [Dp0 [G0 [NH0 St]]]]]. destruct W as [Shape [Oin [Rdy Trk]]].
     set (cs := apply_ops e (i_cfg s0) l) in *.
     assert (Dcs : dom e cs) by (apply dom_apply_ops; auto).
     destruct (mid_batch e (i_cfg s0) l SR D0 Cl0 Shape) as [md Mcs]. fold cs in Mcs.
